@@ -1055,7 +1055,7 @@ func codecStream(cfg *Config) *hx.Stats {
 	st.Dist["HDR"] = e.nHDR
 	st.Distinct = e.nENC + e.nDEC
 	st.Samples = append(st.Samples, fmt.Sprintf("programs=%d ENC=%d DEC=%d HDR=%d skipped=%d", st.Programs, e.nENC, e.nDEC, e.nHDR, e.nSkip))
-	for _, tag := range []string{"enc:data-root", "enc:data-next", "enc:data-last", "enc:data-with-ref", "enc:meta-root", "enc:meta-nonroot", "enc:storable", "v0:ok",
+	for _, tag := range append([]string{"enc:data-root", "enc:data-next", "enc:data-last", "enc:data-with-ref", "enc:meta-root", "enc:meta-nonroot", "enc:storable", "v0:ok",
 		"enc:map-root", "enc:map-next", "enc:map-last", "enc:map-group", "enc:map-inline-group", "enc:map-external-ref", "enc:map-single-elements",
 		"enc:mmeta-root", "enc:mmeta-nonroot", "v0map:ok",
 		"enc:has-inlined", "enc:inlined-array", "enc:inlined-map", "enc:compact", "enc:typeinfo-ref", "enc:wrapper",
@@ -1063,7 +1063,7 @@ func codecStream(cfg *Config) *hx.Stats {
 		"directed:max-digest-level-committed", "observation:digest-level-limit", "directed:extra-data-256-entries-committed",
 		"observation:extra-data-index-limit", "encerr:xdindex", "encerr:level", "directed:extra-data-limit-recovered",
 		"observation:decmode-nesting-limit", "directed:nesting-reloaded:arr", "directed:nesting-reloaded:map", "directed:nesting-reloaded:warr",
-		"directed:compact-type-id-reloaded", "inline:named-compact", "usz:all-width-boundaries"} {
+		"directed:compact-type-id-reloaded", "inline:named-compact", "usz:all-width-boundaries"}, codecStorSlabRequired...) { // + codecstorslab.go
 		// (a run cut short by violations is judged by those, not by its coverage)
 		if st.Dist[tag] == 0 && st.HarnessErr == "" && len(st.Violations) == 0 {
 			st.HarnessErr = "codec stream never produced " + tag
